@@ -887,3 +887,119 @@ def rule_render_op_results(ctx):
                     if f.path not in WRAPPERS and f.path != "jxl_render::image::RenderedImage::<S>::blend":
                         ctx.bad(rid, "Rendering-constructed:" + f.path, "FrameRender::Rendering is constructed outside the reviewed "
                                 "mark sites", fn=f, pos=st[3])
+
+
+def rule_publish_success(ctx):
+    """a success state (Done / Blended) is only published where every fallible step computed before it is known to have succeeded"""
+    rid = "R-PUBLISH-SUCCESS"
+    ctx.rule(rid, "every place that publishes a finished frame - done_render(FrameRender::Done | Blended(..)) or a store of such a value "
+                  "into the handle's guard - is dominated by the success edge of every fallible call whose outcome is examined at all: "
+                  "for each call in the same function that returns a Result, dominates the publishing block and whose result (followed "
+                  "through map_err / Try::branch / moves) is tested by a discriminant switch somewhere, one of those switches' Ok / "
+                  "Continue targets dominates the publishing block.  Publishing first and looking at the error afterwards caches a "
+                  "half-composited buffer as the frame: the failing call reports the error, every later call returns the wrong "
+                  "picture as a success")
+    sites = 0
+    for f in handle_fns(ctx.prog):
+        if f.kind == "Promoted":
+            continue
+        pubs = []
+        defs = None
+        succ_locals = set()
+        for b, blk in enumerate(f.blocks):
+            if blk[2]:
+                continue
+            for st in blk[0]:
+                if st[0] == "=" and st[2][0] == "agg" and st[2][1][0] == "adt" and st[2][1][1] == FR and st[2][1][2] in ("Done", "Blended"):
+                    if len(st[1]) == 1:
+                        succ_locals.add(st[1][0])
+                    elif "*" in st[1][1:]:
+                        pubs.append((b, st[3], "store of %s" % st[2][1][2]))
+                elif st[0] == "=" and st[2][0] == "use" and op_local(st[2][1]) in succ_locals and len(st[1]) > 1 and "*" in st[1][1:]:
+                    pubs.append((b, st[3], "store of a finished state"))
+            t = blk[1]
+            if t[0] == "call" and callee(t) and (callee(t)["fn"] == DONE or callee(t).get("res") == DONE) and len(t[2]) >= 2:
+                l = op_local(t[2][1])
+                if defs is None:
+                    defs = Defs(f)
+                d = defs.single(l) if l is not None else None
+                if d and d[2] == "assign" and d[3][2][0] == "agg" and d[3][2][1][0] == "adt" and d[3][2][1][2] in ("Done", "Blended"):
+                    pubs.append((b, t[-2], "done_render(%s)" % d[3][2][1][2]))
+        if not pubs:
+            continue
+        if defs is None:
+            defs = Defs(f)
+        ctx.seen(f)
+        # Result-returning calls and where their outcome is examined
+        uses = {}
+        for b, blk in enumerate(f.blocks):
+            if blk[2]:
+                continue
+            for st in blk[0]:
+                if st[0] == "=" and st[2][0] in ("use", "discr"):
+                    src = op_local(st[2][1]) if st[2][0] == "use" else st[2][1][0]
+                    if src is not None and len(st[1]) == 1:
+                        uses.setdefault(src, []).append(("discr" if st[2][0] == "discr" else "copy", st[1][0], b))
+            t = blk[1]
+            if t[0] == "call" and t[3] and len(t[3]) == 1:
+                for a in t[2]:
+                    if op_local(a) is not None:
+                        uses.setdefault(op_local(a), []).append(("call", t[3][0], b, callee(t)["fn"] if callee(t) else ""))
+            if t[0] == "switch" and op_local(t[1]) is not None:
+                uses.setdefault(op_local(t[1]), []).append(("switch", None, b))
+
+        def ok_targets(r):
+            """Ok / Continue targets of the discriminant switches that examine Result local r (through adaptors)"""
+            out, seen, work = [], set(), [(r, False)]
+            found_switch = False
+            while work:
+                x, is_discr = work.pop()
+                if (x, is_discr) in seen:
+                    continue
+                seen.add((x, is_discr))
+                for u in uses.get(x, []):
+                    if u[0] == "copy":
+                        work.append((u[1], is_discr))
+                    elif u[0] == "discr":
+                        work.append((u[1], True))
+                    elif u[0] == "call" and not is_discr:
+                        last = u[3].split("::")[-1]
+                        if last in ("map_err", "map", "branch", "and_then", "or_else", "inspect_err", "into", "from"):
+                            work.append((u[1], False))
+                    elif u[0] == "switch" and is_discr:
+                        found_switch = True
+                        t = f.term(u[2])
+                        tg = [x2 for v, x2 in t[2] if int(v) == 0]
+                        others = {x2 for v, x2 in t[2] if int(v) != 0}
+                        if not tg and len(t[2]) >= 1:
+                            tg = [t[3]]      # `switch d [1 -> err] otherwise ok`
+                        else:
+                            others.add(t[3])
+                        out.extend(x2 for x2 in tg if x2 not in others or len(t[2]) == 1 and x2 == t[3])
+            return found_switch, out
+
+        for b, pos, what in pubs:
+            sites += 1
+            bad = None
+            for cb, ct in f.calls():
+                if cb == b or not f.dominates(cb, b) or not ct[3] or len(ct[3]) != 1:
+                    continue
+                ty = str(f.local_ty(ct[3][0]))
+                if not ty.startswith("core::result::Result<") or "PoisonError" in ty or "MutexGuard" in ty and "Error" not in ty.split("MutexGuard")[0]:
+                    continue
+                examined, oks = ok_targets(ct[3][0])
+                if not examined:
+                    continue
+                if not any(f.dominates(x, b) for x in oks):
+                    bad = (cb, ct)
+                    break
+            key = "%s|%s" % (strip_generics(f.path), what)
+            if bad:
+                c = callee(bad[1])
+                ctx.bad(rid, key + "|before-outcome", "%s is reached whether or not `%s` (line %d) succeeded: its result is only examined "
+                        "elsewhere - a failed step is cached as a finished frame" % (what, (c.get("res") or c["fn"]) if c else "an indirect call",
+                                                                                      pos_line(bad[1][-2])), fn=f, pos=pos)
+            else:
+                ctx.ok(rid, key, "dominated by the success edge of every examined fallible call before it", nontrivial=True, fn=f)
+    ctx.count(rid + ".publish-sites", sites)
+    ctx.floor(rid + ".publish-sites", 2)
